@@ -148,9 +148,23 @@ def run_experiment(real, mod, ws, name, specs, idxs):
     owner = {}
     with real.experiment(ws, name, port=-1, launcher=real.launcher(ws)) as xp:
         subs = []
+        seen = set()
         for i in idxs:
             o = build(mod, specs[i])
             its = init_tasks(mod, specs[i])
+            t, h = expected_key(mod, specs[i])
+            loc = ws / "jobs" / t / h
+            if (t, h) in seen:
+                # a deprecated task class and its replacement with the same parameters in one experiment: the scheduler
+                # asserts `job.type == other.type` (AssertionError) -- not part of C20; the duplicate is not submitted
+                res.append({"job": i, "rel": [t, h], "state": "DUPLICATE-IN-EXPERIMENT", "launched": False})
+                continue
+            seen.add((t, h))
+            if loc.is_symlink() and not loc.exists():
+                # a dangling link at the job location (its target was deleted by the history): submitting there makes the
+                # scheduler's lock thread die with FileExistsError and the experiment never ends -- not part of C20; skipped
+                res.append({"job": i, "rel": [t, h], "state": "SKIPPED-DANGLING-LOCATION", "launched": False})
+                continue
             o.submit(init_tasks=its) if its else o.submit()
             subs.append((i, o))
         xp.wait()
@@ -274,8 +288,8 @@ def run_case(real, root: Path, case):
                 r.update(before=before, jobs=res)
             elif k == "deprecate":
                 for name in op["classes"]:
-                    getattr(mod, name).__xpmtype__.deprecate()
-                r["type_ids"] = {c["name"]: str(getattr(mod, c["name"]).__xpmtype__.identifier) for c in case["lib"]["classes"]}
+                    getattr(mod, name).__getxpmtype__().deprecate()
+                r["type_ids"] = {c["name"]: str(getattr(mod, c["name"]).__getxpmtype__().identifier) for c in case["lib"]["classes"]}
             elif k == "fix":
                 r["before"] = snapshot(ws)
                 r["expected"] = {str(d): expected_key(mod, specs[i]) for d, i in state["spec_of"].items() if i is not None}
@@ -315,10 +329,28 @@ def main():
     data = json.loads(Path(sys.argv[1]).read_text())
     root = Path(tempfile.mkdtemp(prefix="xv-c20-")).resolve()
     out = []
+    import signal
+
+    def on_alarm(signum, frame):
+        raise TimeoutError("case exceeded its time limit (experiment did not end)")
+
+    signal.signal(signal.SIGALRM, on_alarm)
     try:
         real = Real()
-        for case in data["cases"]:
-            out.append(run_case(real, root, case))
+        for ci, case in enumerate(data["cases"]):
+            signal.alarm(90)
+            try:
+                rec = run_case(real, root, case)
+            except TimeoutError as e:
+                rec = {"error": f"TimeoutError: {e}", "records": []}
+            signal.alarm(0)
+            out.append(rec)
+            if rec["error"] and rec["error"].startswith("TimeoutError"):
+                # the scheduler threads of the stuck experiment are still around: give up this worker
+                out += [{"error": "worker gave up after a stuck case", "records": []} for _ in data["cases"][ci + 1:]]
+                Path(sys.argv[2]).write_text(json.dumps(out))
+                shutil.rmtree(root, ignore_errors=True)
+                os._exit(0)
     finally:
         shutil.rmtree(root, ignore_errors=True)
     Path(sys.argv[2]).write_text(json.dumps(out))
